@@ -185,14 +185,30 @@ let san_cases (p:pos) : (string * (int*int*int) option option) list =
       let base_wrong_x = (* capture flag inverted *)
         if t = Pawn then (if cap then [ (* pawn capture written as a push *) d ^ pr ] else [ (Printf.sprintf "%cx%s%s" (Char.chr (97 + (int_of_n m.src) land 7)) d pr) ])
         else [ letter_of t ^ (if cap then "" else "x") ^ d ^ pr ] in
-      (* these denote no legal move unless some other legal move happens to match them *)
-      List.map (fun s -> (s, None)) base_wrong_x
+      (* these denote no legal move unless some other legal move happens to be spelled so *)
+      List.map (fun s -> (s, Some None)) base_wrong_x
       @ (* under-disambiguated: piece letter + destination when two such pieces can go there *)
       (if t <> Pawn && List.length (List.filter (fun x -> x.dst = m.dst && (match List.nth p.placement (int_of_n x.src) with Some (t',_) -> t' = t | None -> false)) lm) >= 2
        then [ (letter_of t ^ (if cap then "x" else "") ^ d, Some None) ] else [])
       @ (* wrong promotion piece / missing promotion *)
       (if m.promo <> None && t = Pawn && not cap then [ (d, Some None); (d ^ "K", None) ] else [])) lm in
-  pos_cases @ neg
+  (* rank digits just outside 1..8 in the destination: "Raa0", "Qxh9" denote no square *)
+  let neg = neg @ List.concat_map (fun m ->
+      let d = int_of_n m.dst in
+      let r = d lsr 3 in
+      if r <> 7 && r <> 0 then [] else
+      let bad = Printf.sprintf "%c%c" (Char.chr (97 + d land 7)) (if r = 7 then '0' else '9') in
+      List.filter_map (fun s ->
+          let t = string_of_str s in
+          let good = sq_name_s d in
+          (* replace the last occurrence of the destination square *)
+          let rec find i = if i < 0 then None else if i + 2 <= String.length t && String.sub t i 2 = good then Some i else find (i-1) in
+          match find (String.length t - 2) with
+          | Some i when String.length t > 2 -> Some (String.sub t 0 i ^ bad ^ String.sub t (i+2) (String.length t - i - 2), Some None)
+          | _ -> None) (san_spellings p m)) lm in
+  (* a negative text that is an admissible spelling of some legal move is not a negative *)
+  let spelled = List.map fst pos_cases in
+  pos_cases @ List.filter (fun (s, _) -> not (List.mem s spelled)) neg
 
 let sangen (line:string) : unit =
   if String.length line > 2 && String.sub line 0 2 = "P " then begin
